@@ -430,3 +430,5 @@ func (g *G) Of(kind string) V {
 }
 
 func (g *G) Any() V { return g.Of(Kinds[g.R.Intn(len(Kinds))]) }
+
+func (g *G) Kinds() []string { return Kinds }
